@@ -1017,6 +1017,10 @@ class _Parser(object):
                         if eff != "in body":
                             # html5lib only drops the LF in its "in body" phase
                             self.trace.add("dev:pre-lf")
+                    elif data[:1] not in WS:
+                        # html5lib's flag is only consumed by a whitespace token: after a NUL or
+                        # other text it lingers and may drop a later LF
+                        self.trace.add("dev:pre-lf")
                 if not data:
                     continue
                 # split into runs of identically treated characters: ws / NUL / other
